@@ -46,8 +46,9 @@ class _Beam(_IModel):
     """Shear correction factor for transverse shear in the beam's y direction
     (paired with Iz bending in ``Isotropic.Get_D``).
 
-    Populated in ``_Beam.__init__`` with the Cowper-ν=0 value returned by
-    ``_Get_shear_correction_factor("y")``.  Override directly to use a different k:
+    Populated whenever a section is assigned (constructor, ``beam.section = ...``) with
+    the Cowper-ν=0 value returned by ``_Get_shear_correction_factor("y")``.
+    Override directly (after the section has been assigned) to use a different k:
 
         # Pure Jouravski (textbook): same as default for rectangle, 9/10 for circle
         beam._ky = 9 / 10
@@ -66,7 +67,7 @@ class _Beam(_IModel):
     (paired with Iy bending in ``Isotropic.Get_D``).  3-D beams only — unused
     in 1-D / 2-D simulations.
 
-    Populated in ``_Beam.__init__`` with the Cowper-ν=0 value returned by
+    Populated whenever a section is assigned with the Cowper-ν=0 value returned by
     ``_Get_shear_correction_factor("z")``.  Override directly to use a different k —
     same Cowper-with-ν / Pure Jouravski / table-value patterns as ``_ky``,
     just applied to the z direction (so e.g. for a rectangle bxh, the
@@ -156,9 +157,6 @@ class _Beam(_IModel):
 
         self.yAxis = yAxis  # type: ignore [assignment]
 
-        self._ky = self._Get_shear_correction_factor("y")
-        self._kz = self._Get_shear_correction_factor("z")
-
     @property
     def line(self) -> Line:
         """average fiber line of the beam."""
@@ -178,8 +176,15 @@ class _Beam(_IModel):
         section.Translate(*-section.center)
         Iyz = section.groupElem.Integrate_e(lambda x, y, z: x * y).sum()
         assert np.abs(Iyz) <= 1e-9, "The section must have at least 1 symetry axis."
-        self.Need_Update()
         self.__section: "Mesh" = section
+        # the shear correction factors are properties of the section
+        self._Update_shear_correction_factors()
+        self.Need_Update()
+
+    def _Update_shear_correction_factors(self) -> None:
+        """Sets ``_ky`` and ``_kz`` to the Cowper-ν=0 values of the current section."""
+        self._ky = self._Get_shear_correction_factor("y")
+        self._kz = self._Get_shear_correction_factor("z")
 
     @property
     def xAxis(self) -> _types.FloatArray:
@@ -274,7 +279,7 @@ class _Beam(_IModel):
         """Cowper's (1966) shear correction factor k for the cross-section,
         evaluated at Poisson's ratio ν = 0.
 
-        Used to populate ``self._ky`` / ``self._kz`` in ``__init__`` — those
+        Used to populate ``self._ky`` / ``self._kz`` when a section is assigned — those
         attributes are what ``Isotropic.Get_D`` actually reads, so users can
         override them with any value (Pure Jouravski, a textbook table value,
         Cowper-with-ν=v, …) without touching this helper.
@@ -418,7 +423,7 @@ class Isotropic(_Beam):
         E = self.E
 
         # Shear correction factors come straight from the beam's _ky / _kz.
-        # Default: the Cowper-ν=0 value computed once in _Beam.__init__ via
+        # Default: the Cowper-ν=0 value computed when the section is assigned via
         # _Get_shear_correction_factor.  See those attributes' docstrings for the
         # textbook Cowper-with-ν / Pure-Jouravski override patterns.
         if dim == 1:
